@@ -70,6 +70,33 @@ def variants(ctx):
             out.append((lang, orig, with_comments(o, marks), removed, "mark"))
         chosen = rnd.sample(ind, rnd.randint(1, len(ind)))
         out.append((lang, orig, with_comments(o, {f.markable: rnd.choice(DECOY[fam]) for f in chosen}), set(), "decoy"))
+        # a REAL marker comment on a line that is not the name's line changes nothing: the other
+        # lines of a multi-line header, the first body line, the closing line, a comment-only
+        # line directly above or below the name line
+        elsewhere = {}
+        for f in o.funcs:
+            cands = list(f.extra_lines)
+            if f.end:
+                cands.append(f.end[0])
+            if f.markable and f.markable + 1 <= len(o.lines):
+                cands.append(f.markable + 1)
+            name_lines = {g.markable for g in o.funcs}
+            for ln in cands:
+                segs = o.lines[ln - 1]
+                free = not any((not code) and text.strip() for (text, owner, code) in segs) and any(code for (_, _, code) in segs)
+                if ln not in name_lines and free and rnd.random() < 0.5:
+                    elsewhere[ln] = rnd.choice(MARK[fam])
+        if elsewhere:
+            out.append((lang, orig, with_comments(o, elsewhere), set(), "marker-elsewhere"))
+        # comment-only marker lines inserted directly above name lines
+        lines = orig.split("\n")
+        ins = sorted({f.markable for f in rnd.sample(o.funcs, min(len(o.funcs), 3)) if f.markable}, reverse=True)
+        if ins:
+            v = list(lines)
+            shift = {}
+            for ln in ins:
+                v.insert(ln - 1, " " * rnd.choice([0, 2, 4]) + rnd.choice(MARK[fam]))
+            out.append((lang, orig, "\n".join(v), ("shift", sorted(ins)), "marker-line-above"))
     return out
 
 
@@ -81,15 +108,21 @@ def correspond(ctx):
     vm = sr.model_scan_many([sr.scan_request(l, v) for (l, _, v, _, _) in vs])
     dis, fails = [], []
     nontrivial = set()
-    dist = {"mark": 0, "decoy": 0, "functions_removed": 0}
+    dist = {"mark": 0, "decoy": 0, "marker-elsewhere": 0, "marker-line-above": 0, "functions_removed": 0}
     for (lang, orig, v, removed, kind), r, m in zip(vs, vr, vm):
-        inp = {"stream": "program", "language": lang, "original": orig, "variant": v, "removed": sorted(removed)}
+        inp = {"stream": "program", "language": lang, "original": orig, "variant": v, "removed": sorted(removed) if isinstance(removed, set) else list(removed)}
         if r != m:
             dis.append({"stream": "scan/%s" % lang, "input": inp, "model": m[:300], "impl": r[:300]})
         o = sr.decode_scan(originals[(lang, orig)]); d = sr.decode_scan(r)
         if o is None or d is None:
             fails.append({"input": inp, "observed": r[:200], "required": "no exception"}); continue
-        want = [x for x in o[0] if (x[0], x[1], x[2]) not in removed]
+        if isinstance(removed, tuple) and removed and removed[0] == "shift":
+            ins = removed[1]
+            sh = lambda l: l + sum(1 for k in ins if k <= l)
+            want = [(n, sh(sl), sc, sh(el), ec, ln) for (n, sl, sc, el, ec, ln) in o[0]]
+            removed = set()
+        else:
+            want = [x for x in o[0] if (x[0], x[1], x[2]) not in removed]
         if len(want) != len(o[0]) - len(removed):
             fails.append({"input": inp, "observed": "generator/analysis mismatch on the original", "required": sorted(removed)}); continue
         if d[0] != want:
@@ -159,7 +192,13 @@ def replay(payload):
         return got == spec_is_nocl(inp["text"])
     o = sr.decode_scan(sr.real_scan(inp["language"], inp["original"]))
     d = sr.decode_scan(sr.real_scan(inp["language"], inp["variant"]))
-    removed = {tuple(x) for x in inp["removed"]}
-    want = [x for x in o[0] if (x[0], x[1], x[2]) not in removed] if o else None
+    if inp["removed"] and inp["removed"][0] == "shift":
+        ins = inp["removed"][1]
+        sh = lambda l: l + sum(1 for k in ins if k <= l)
+        removed = set()
+        want = [(n, sh(sl), sc, sh(el), ec, ln) for (n, sl, sc, el, ec, ln) in o[0]] if o else None
+    else:
+        removed = {tuple(x) for x in inp["removed"]}
+        want = [x for x in o[0] if (x[0], x[1], x[2]) not in removed] if o else None
     print("removed %s\noriginal %s\nvariant  %s" % (sorted(removed), o and o[0], d and d[0]))
     return o is not None and d is not None and d[0] == want
